@@ -4,9 +4,4 @@ go 1.19
 
 require github.com/zerx-lab/wordZero v0.0.0
 
-require (
-	github.com/litao91/goldmark-mathjax v0.0.0-20210217064022-a43cf739a50f // indirect
-	github.com/yuin/goldmark v1.7.8 // indirect
-)
-
 replace github.com/zerx-lab/wordZero => /repo
